@@ -88,7 +88,7 @@ theorem chosen_teids_distinct_along_every_history (cfg : Agent.Cfg) (pool : Opti
     let w := evs.foldl (Agent.stepEv cfg) { pool := pool, teid := g }
     (Agent.chosen w).Nodup ∧ (∀ t ∈ Agent.chosen w, 1 ≤ t ∧ w.teid.used (t - 1) = true) ∧
     (∀ x, w.teid.used x = true → x + 1 ∈ Agent.chosen w) := by
-  have h := Agent.inv_teid_run cfg evs { pool := pool, teid := g } (Agent.inv_start cfg pool g)
+  have h := Agent.inv_teid_run cfg evs { pool := pool, teid := g } (Agent.inv_start cfg pool g) (Agent.farwf_start pool g)
     ⟨hg, by simp [Agent.chosen, Agent.allSessions, Agent.flat, Agent.Held, hfresh]⟩ henv
   exact h.2.held
 
